@@ -59,6 +59,7 @@ class Impl:
                 self.names.append(k)
         self.id = {n: i for i, n in enumerate(self.names)}
         self.latest = pkv.LATEST_PROBLEM_KIND_VERSION
+        self.unexpected = []        # exceptions other than the modelled KeyError / constructor AssertionError
 
     def ids(self, feats):
         return sorted(self.id[f] for f in feats)
@@ -117,17 +118,27 @@ def observe_rk(I, f):
 
 def observe_pair(I, sa, sb):
     a, b = I.make(sa), I.make(sb)
-    o = {"eq": a == b, "heq": hash(a) == hash(b)}
+    try:
+        o = {"eq": a == b, "heq": hash(a) == hash(b)}
+    except Exception as ex:  # == and hash never raise in the model
+        I.unexpected.append(("==/hash", sa, sb, repr(ex)))
+        o = {"eq": False, "heq": False}
     a, b = I.make(sa), I.make(sb)
     try:
         r = a <= b
         o["le"] = (bool(r), I.ids(a._features), I.ids(b._features))
     except KeyError:
         o["le"] = None
-    a, b = I.make(sa), I.make(sb)
-    o["union"] = observe_rk(I, lambda: a.union(b))
-    a, b = I.make(sa), I.make(sb)
-    o["inter"] = observe_rk(I, lambda: a.intersection(b))
+    except Exception as ex:  # anything but the documented KeyError for a missing upgrade function
+        I.unexpected.append(("<=", sa, sb, repr(ex)))
+        o["le"] = None
+    for name, op in (("union", lambda x, y: x.union(y)), ("inter", lambda x, y: x.intersection(y))):
+        a, b = I.make(sa), I.make(sb)
+        try:
+            o[name] = observe_rk(I, lambda: op(a, b))
+        except Exception as ex:
+            I.unexpected.append((name, sa, sb, repr(ex)))
+            o[name] = "RKeyErr"
     return o
 
 
@@ -141,6 +152,9 @@ def observe_upg(I, spec, targets):
             f1, _, _ = I.pkv.equalize_versions(set(k._features), set(), k.version, w)
             out.append(I.ids(f1))
         except KeyError:
+            out.append(None)
+        except Exception as ex:
+            I.unexpected.append(("equalize_versions", spec, w, repr(ex)))
             out.append(None)
     return out
 
@@ -199,6 +213,13 @@ def ser_case(c):
 # <= strips its operands in place).
 def oracle(I, specs, rng, max_triples=4000):
     """Returns a list of (law, detail) violated by the implementation on these kinds."""
+    try:
+        return oracle_(I, specs, rng, max_triples)
+    except Exception as ex:  # the laws say these calls return
+        return [("comparison-raises", [repr(ex)])]
+
+
+def oracle_(I, specs, rng, max_triples):
     bad = []
     ks = [(s, I.try_make(s)) for s in specs]
     ks = [(s, k.version) for s, k in ks if k is not None]
@@ -366,6 +387,11 @@ def run(ctx):
     n_ex = sum(1 for k, _ in raw if k == "exhaustive")
     bad = ctx.coq_failing(cases[:n_ex], "ok", imports=IMPORTS, shard=max(1, (n_ex + 3) // 4))
     bad += [n_ex + i for i in ctx.coq_failing(cases[n_ex:], "ok", imports=IMPORTS, shard=max(1, (len(cases) - n_ex + 3) // 4))]
+
+    for what, sa, sb, ex in I.unexpected[:20]:
+        within = all(isinstance(x, tuple) and (x[1] is None or 1 <= x[1] <= L) for x in (sa, sb) if isinstance(x, tuple))
+        ctx.fail("impl-exception", "%s raised %s on constructible kinds %s, %s" % (what, ex, sa, sb), ["c33", "exception", what],
+                 {"op": what, "a": sa, "b": sb, "exception": ex, "names": I.names, "theorem_or_corr": "corr:C33:" + what}, within)
 
     # ---- the independent oracle runs on everything (the theorems say it cannot fire while model = implementation)
     oracle_hits = []
